@@ -511,6 +511,51 @@ func C19(run *hx.Run) {
 		close(parent.done)
 	}
 
+	// (b3) the database file is REPLACED (new file renamed over the old name) while the *sql.DB stays open, as
+	// an application that swaps in a freshly built database does: later queries read the file that has the name
+	// now - the same rows a native Open of that name gives
+	{
+		rp := filepath.Join(dir, "replaced.sqlite")
+		np := filepath.Join(dir, "replacement.sqlite")
+		if err := o.Exec(rp, "CREATE TABLE r(a, b)", "INSERT INTO r VALUES(1,'old'),(2,'old'),(3,'old')"); err == nil {
+			if rsq, err := gosql.Open("sqlittle", rp); err == nil {
+				rsq.SetMaxOpenConns(1)
+				rsq.SetMaxIdleConns(1)
+				for round := 0; round < 3; round++ {
+					sqlRows(rsq, context.Background(), "SELECT * FROM r")
+					os.Remove(np)
+					if err := o.Exec(np, "CREATE TABLE r(a, b)", fmt.Sprintf("INSERT INTO r VALUES(1,'new%d'),(2,'new%d'),(3,'new%d'),(4,'more')", round, round, round)); err != nil {
+						break
+					}
+					if err := os.Rename(np, rp); err != nil {
+						break
+					}
+					got, _, gerr := sqlRows(rsq, context.Background(), "SELECT * FROM r")
+					var want []hx.Row
+					var werr error
+					if ndb, err := sqlittle.Open(rp); err == nil {
+						want, werr, _ = collectSelect(ndb, "r", []string{"a", "b"})
+						ndb.Close()
+					}
+					run.Eval(1)
+					run.Distinct(fmt.Sprintf("replaced-by-rename/%d", round))
+					if werr == nil && want != nil {
+						if gerr != nil {
+							run.Violation("C19/file-replaced/error", fmt.Sprintf("database file replaced by rename under an open *sql.DB: the next query fails: %v (a native Open of the name reads %d rows)", gerr, len(want)), nil)
+							break
+						}
+						if df := diffRows(want, got); df != "" {
+							run.Violation("C19/file-replaced/stale-rows", fmt.Sprintf("database file replaced by rename under an open *sql.DB (round %d): the next query differs from a native select on that name: %s", round, df), nil)
+							break
+						}
+						run.See("file_replaced_under_open_pool", "rows follow the new file")
+					}
+				}
+				rsq.Close()
+			}
+		}
+	}
+
 	// (c) close / cancel after every k
 	checkClean := func(key, what string) {
 		if !waitNoProducer() {
